@@ -8,6 +8,7 @@
   (harness/props/c09.py).  `numberTags` models `number_distributed_tags`.
 -/
 import PtProofs.DistGraph
+import PtProofs.PartitionGood
 namespace Pt.Dist
 
 /-- The executable checker is sound: a partition it accepts satisfies the contract. -/
@@ -112,7 +113,91 @@ theorem number_tags_deterministic {α : Type} [DecidableEq α] (base : Nat)
     (g g' : List (List α)) (h : g.flatten = g'.flatten) : numberTags base g = numberTags base g' := by
   unfold numberTags; rw [h]
 
+/-! ### the partitioner itself (PtModel.Partition: model of `find_distributed_partition`) -/
+
+/-- **The partitioner produces partitions the executor can run** (`partition_wf`, the part the
+    executor needs).  For EVERY program satisfying `GoodProgram` — matched, duplicate-free,
+    acyclic communication (C10's `Valid`), operands before users, unique node ids, and the two
+    hypotheses that exclude the recorded findings: `payloadValue` (no payload computed through a
+    send holder whose stapled send depends on a receive) and `noForward` (no received array sent
+    on unchanged) — the partition the model computes (batches → local parts → placement of
+    every materialised / sent / output array with the MIN over dependent sends → promotion →
+    part inputs / outputs / `needed_pids`) satisfies `WFexec`: unique pids; acyclic part order in
+    which every receive has a sender of strictly lower level; overall outputs are produced; sent
+    names are outputs of the sending part; every name a part reads is a user input, a name
+    received by that or an EARLIER part, or an output of an EARLIER part. -/
+theorem partition_wf_partial (base : Nat) {p : Program} (hp : GoodProgram p) :
+    WFexec (partitionOf base p) :=
+  partitionOf_wfexec base hp
+
+/-- The full statement (every clause of `WF`, i.e. also: received names are never part outputs,
+    name uniqueness, the round clauses) for the model partition.  NOT proved in this revision
+    (per instance it is decided by `checkWF` on the real partition, which the correspondence
+    ties to the model's); kept visible. -/
+def PartitionWFStatement : Prop := ∀ (base : Nat) (p : Program), GoodProgram p → WF (partitionOf base p)
+
+/-- the executable check run by the tie is sufficient for `GoodProgram` -/
+theorem partition_check_sound {p : Program} (h : checkGood p = true) : GoodProgram p :=
+  checkGood_sound h
+
+/-- **End to end**: executing the model's partition of a good program, under ANY interleaving of
+    ranks and ANY `Waitsome` outcomes, never deadlocks, every part finds its inputs, and every
+    terminal state holds the reference solution for every overall output. -/
+theorem partition_exec_faithful (base : Nat) {p : Program} (hp : GoodProgram p) {V : Type} (sem : Sem V) :
+    (∀ s : GState V, ¬ Terminal (partitionOf base p) s → ∃ l s', Step sem (partitionOf base p) s l s')
+    ∧ (∀ {ref : Nat → Name → V}, IsSolution sem (partitionOf base p) ref →
+        ∀ {s : GState V}, Reachable sem (partitionOf base p) s → Terminal (partitionOf base p) s →
+        ∀ r, r < (partitionOf base p).length → ∀ n ∈ (partitionOf base p).overall r,
+          (s.rk r).ctx n = some (ref r n)) :=
+  ⟨fun s hn => progress_lemma sem (partitionOf_wfexec base hp) s hn,
+   fun hsol _ hreach hterm r hr => faithful_lemma sem (partitionOf_wfexec base hp) hsol hreach hterm r hr⟩
+
+/-- every send / receive of a valid program appears in exactly one part of its rank, and the
+    receiving part is strictly later in batch order than the sending part (any ranks) -/
+theorem partition_comm_once {g : CommGraph} (hv : Valid g) (hd : DepsAreRecvs g) :
+    (∀ c ∈ g.sendIds, ∃ q ∈ partsOf c.src (rawBatches g), c ∈ q.sends)
+    ∧ (∀ c ∈ g.recvIds, ∃ q ∈ partsOf c.dst (rawBatches g), c ∈ q.recvs)
+    ∧ (∀ r (q q' : SkelPart) c, q ∈ partsOf r (rawBatches g) → q' ∈ partsOf r (rawBatches g) →
+        ((c ∈ q.sends → c ∈ q'.sends → q = q') ∧ (c ∈ q.recvs → c ∈ q'.recvs → q = q')))
+    ∧ (∀ rs rd (q q' : SkelPart) c, q ∈ partsOf rs (rawBatches g) → q' ∈ partsOf rd (rawBatches g) →
+        c ∈ q.sends → c ∈ q'.recvs → q.cand < q'.cand) :=
+  ⟨fun _ hc => skel_send_exists hv hd hc, fun _ hc => skel_recv_exists hv hd hc,
+   fun _ _ _ _ hq hq' => ⟨fun h h' => skel_send_unique hv hq hq' h h', fun h h' => skel_recv_unique hv hq hq' h h'⟩,
+   fun _ _ _ _ _ hq hq' h h' => skel_recv_after_send hv hq hq' h h'⟩
+
+/-- **Determinism / order independence of the global merge** (`_set_dict_union_mpi` under
+    `allreduce`): the merged dependency dictionary is the same mapping to sets for every
+    permutation of the ranks' contributions (and union is commutative, associative, idempotent:
+    `DepDict.union_comm/assoc/idem`), so `partitionOf`, a function of the program alone, does
+    not depend on the fold order. -/
+theorem partition_deterministic {l l' : List DepDict} (h : l.Perm l') :
+    (l.foldl DepDict.union []).Equiv (l'.foldl DepDict.union []) :=
+  DepDict.fold_perm h
+
+/-- **The ill-formed inputs are exactly the diagnosed ones** (tie to C10): the modelled
+    diagnosis accepts a communication graph iff it is `Valid`. -/
+theorem diagnoses_exact (g : CommGraph) : diagnose g = .ok () ↔ Valid g := by
+  constructor
+  · intro h
+    apply Classical.byContradiction
+    intro hnv
+    obtain ⟨d, hd, _⟩ := diagnose_complete_lemma hnv
+    rw [hd] at h
+    cases h
+  · exact diagnose_sound_lemma
+
 /-! ## non-vacuity -/
+
+/-- rank 0 computes `x + …` (node 1), sends it (tag 7) to rank 1; rank 1 receives it and
+    computes its output from it -/
+def exProg : Program :=
+  [ { nodes := [⟨0, .input 0, false⟩, ⟨1, .op [0, 0], false⟩, ⟨2, .send 1 1 7 0, false⟩],
+      outputs := [(5, 2)] },
+    { nodes := [⟨0, .recv 0 7, false⟩, ⟨1, .op [0, 0], true⟩], outputs := [(6, 1)] } ]
+
+example : checkGood exProg = true := by decide +kernel
+example : GoodProgram exProg := partition_check_sound (by decide +kernel)
+example : checkWF (partitionOf 100 exProg) = true := by decide +kernel
 
 /-- a two-rank partition accepted by the checker -/
 def exP9 : Partition :=
